@@ -7,13 +7,14 @@
 (*   funcs  = the functions the interpreter loaded (hook H4) with qn = file#name *)
 (*   entry  = index of the module function that was run                          *)
 (*   events = hook-H1/H2 records in program order, restricted to                 *)
-(*            [e |-> "i", fi, ip, op, fd, od, ad]   instruction fetched (pre-state) *)
+(*            [e |-> "i", fi, ip, op, fd, od, ad, top]  instruction fetched (pre-state; top = display of the top operand) *)
 (*            [e |-> "print", kind, text]           one item written by printn   *)
 (*   prog   = the program AST the code was compiled from                         *)
 (*                                                                               *)
 (* (1) Every "i" event must be the instruction the machine is at - same function, *)
-(*     instruction pointer, opcode, operand-stack depth, frame-stack depth and    *)
-(*     activation depth - and the machine then takes its step; every "print"     *)
+(*     instruction pointer, opcode, operand-stack depth, frame-stack depth,        *)
+(*     activation depth and value on top of the operand stack - and the machine   *)
+(*     then takes its step; every "print"     *)
 (*     event must be the next item the machine printed, with the same text.      *)
 (*     When the events are used up the machine must have halted iff the process  *)
 (*     exited with 0, and failed iff it did not.                                 *)
@@ -40,6 +41,8 @@ Fetch ==
     /\ LET a == TopA(m) IN
          /\ a.fi = E.fi /\ a.ip = E.ip /\ C.funcs[a.fi].code[a.ip + 1].op = E.op
          /\ Len(a.ops) = E.od /\ Len(m.frames) = E.fd /\ Len(m.acts) = E.ad
+         \* the value on top of the operand stack, as the implementation displays it (opaque kinds are not compared)
+         /\ ("top" \in DOMAIN E /\ E.top # "<opaque>" /\ Len(a.ops) > 0 /\ ~HasFn(m, TopV(a), 3)) => E.top = ShowV(m, TopV(a))
     /\ m' = Step(C.funcs, m)
     /\ l' = l + 1 /\ UNCHANGED <<t, pc>>
 
